@@ -1,6 +1,29 @@
-import YncaVerif.Model.Conn
-/-! # C12 — (statements over the L4 model; under construction) -/
+import YncaVerif.Lemmas.C12
+/-! # C12 — the device never sees a silent gap longer than the keep-alive interval
+Over the L4 model with urgency (time passes only while no library thread can move). -/
 namespace Ynca.C12
 open Ynca.L4
-theorem C12_model_initial_state : run ⟨100000, 30000000, 2000000, 1000000, 0⟩ {} [] = some {} := rfl
+
+/-- the connection is up and healthy: sender running, reader not in `connection_lost`, no close() begun,
+    no write error -/
+def Up (s : St) : Prop :=
+  s.spc ≠ .notStarted ∧ s.spc ≠ .done ∧ s.spc ≠ .dead ∧ lossBegun s.rpc = false ∧
+  s.closeStarted = false ∧ s.writeFault = false ∧ s.portOpen = true
+
+/-- **gap**: while the connection is up, the time since the last transmission (since the connection was
+    made, before the first one) never exceeds one command spacing plus the keep-alive interval -/
+theorem C12_gap (P : Params) (s : St) (h : Reachable P s) (hup : Up s) :
+    s.now ≤ lastTx s + P.spacing + P.kaInterval :=
+  gap_inv P s h hup
+
+/-- instantiated with the protocol's numbers as explicit hypotheses: at most 30.1 s -/
+theorem C12_gap_30s (P : Params) (hP : P.kaInterval + P.spacing ≤ 30100000) (s : St) (h : Reachable P s) (hup : Up s) :
+    s.now ≤ lastTx s + 30100000 := by
+  have := gap_inv P s h hup; omega
+
+/-- **two probes first**: the first two transmissions of a connection are keep-alive probes -/
+theorem C12_two_probes (P : Params) (s : St) (h : Reachable P s) :
+    ∀ e ∈ s.wire.take 2, e.2.2 = none ∧ e.2.1 = probe :=
+  first_two_probes P s h
+
 end Ynca.C12
